@@ -38,9 +38,9 @@ def opsEntities (op : String) (j : Json) : Option (Except String Json) :=
       match dealiasRows ents with
       | .error e => pure (rejToJson e)
       | .ok ents' =>
-        let els := chainsOfRows root (!ents'.isEmpty) survey
         let settings : Cells := match j.getObjVal? "settings" with
           | .ok v => (match pairList v with | .ok l => l | .error _ => []) | _ => []
+        let els := chainsOfRows root (!ents'.isEmpty) survey ((Rows.metaKids survey settings).map (·.name))
         let nsp := Rows.get settings "namespaces"
         if !(ents'.all (refsResolve els root)) then
           pure (rejToJson (.unsupported "reference in an entity cell does not resolve (C03)"))
@@ -52,11 +52,14 @@ def opsEntities (op : String) (j : Json) : Option (Except String Json) :=
       let root := getStrD j "root" "data"
       let ents ← rowsOfJson j "entities"
       let survey ← rowsOfJson j "survey"
-      let els := chainsOfRows root (!ents.isEmpty) survey
       let userNs : Option (Str × Str) := match j.getObjVal? "user_entities_ns" with
         | .ok (.str x) => some (Spec.S "entities", x.toList) | _ => none
       let m : Spec.MetaCfg := { audit := getNatD j "audit" 0, omitInstanceID := getBoolD j "omit_instanceID" false,
                                 instanceName := getBoolD j "instance_name" false }
+      let els := chainsOfRows root (!ents.isEmpty) survey (Spec.metaKids m.audit m.omitInstanceID m.instanceName false)
+      if !(ents.all (refsResolve els root)) then
+        pure (Json.mkObj [("outcome", "unsupported"), ("why", "reference in an entity cell does not resolve (C03)")])
+      else
       match Spec.form root (entitySub els root) (String.ofList (getStrD j "version" "")) userNs m ents survey with
       | none => pure (Json.mkObj [("outcome", "rejected")])
       | some o => pure (outToJson o)
